@@ -8,7 +8,7 @@ EXPLANATION = ('Decided from MIR: (R06.1) sibling agreement: the candidate table
                'pass their own j6 / previous[5] / the constant 0.0; (R06.3) the 5-DOF candidates are gated by the position-only check with '
                'DISTANCE_TOLERANCE and not by the full-pose check; (R06.4) a robot declared 5-DOF is routed by inverse / inverse_continuing to '
                'the 5-DOF entry points (J6 = 0 for plain inverse); (R06.5) the YAML and URDF loaders suppress the J6 sign exactly on the '
-               'dof == 5 edge.  Tool-axis agreement and membership of the originating J1..J5 are numerical and not decided.')
+               'dof == 5 edge; (R02.6) the 5-DOF solver has no early exit (every returned value is the vector of verified candidates).  Tool-axis agreement and membership of the originating J1..J5 are numerical and not decided.')
 NOT_DECIDED = 'tool-axis agreement (follows numerically from the wrist-centre construction), membership of the originating J1..J5'
 ASSUMPTIONS = ['the 6-DOF closed form is the reference for theta1..theta5 (C02)']
 
@@ -59,6 +59,8 @@ def run(ctx):
     # ---- R06.6 the 5-DOF solver maps its angles back with the inverse of forward's joint map
     ctx.rule('R06.6', 'the 5-DOF solver writes (theta + offsets[i]) * sign[i] for J1..J5: the inverse of forward\'s joint map (same rule as R02.1)')
     C02.check_inverse_map(ctx, five, 5, 'R06.6')
+    ctx.rule('R02.6', 'no early exit: every value the 5-DOF solver returns is the vector that collects the verified candidates')
+    C02.check_single_exit(ctx, five, 'R02.6')
 
     # ---- R06.2
     sols = [util.table_locals(five)[1]]
